@@ -132,6 +132,11 @@ def scan(rd: cst.Reading) -> list[dict]:
                     and nxt.type not in ("in",) and nxt.type != "comment":
                 if nxt.col0 == line_indent(nxt.row0) and b.col0 != nxt.col0:
                     hit("comment-indent", a, b, b.start)
+            elif nxt is not None and nxt.row0 > b.row1 and nxt.type in CLOSERS and not nxt.in_string \
+                    and nxt.parent == b.parent and b.col0 == line_indent(b.row0) \
+                    and nxt.col0 == line_indent(nxt.row0) and b.col0 != nxt.col0 + 2:
+                # last thing in its container: one level deeper than the closer of that container
+                hit("comment-indent-before-closer", a, b, b.start)
     # trailing whitespace at end of file
     last = leaves[-1]
     tail = data[last.end:]
